@@ -1043,7 +1043,56 @@ func allAssignments(k int) [][]string {
 	return out
 }
 
+// completionOrder sorts the records by the instant they ended (timestamp + latency), the order in which
+// an attack writes them: timestamps are then not monotone. Sequence numbers keep their positions.
+func completionOrder(rs []gen.ResultSpec) {
+	seqs := make([]uint64, len(rs))
+	for i := range rs {
+		seqs[i] = rs[i].Seq
+	}
+	sort.SliceStable(rs, func(i, j int) bool { return rs[i].TsNano+rs[i].Latency < rs[j].TsNano+rs[j].Latency })
+	for i := range rs {
+		rs[i].Seq = seqs[i]
+	}
+}
+
+// plantSlowEarly makes record `at` the one that began first and ended last (smallest timestamp, largest end).
+func plantSlowEarly(rs []gen.ResultSpec, at int) {
+	minTs, maxEnd := rs[0].TsNano, rs[0].TsNano+rs[0].Latency
+	for _, x := range rs {
+		if x.TsNano < minTs {
+			minTs = x.TsNano
+		}
+		if e := x.TsNano + x.Latency; e > maxEnd {
+			maxEnd = e
+		}
+	}
+	if minTs < 2000000000 {
+		return
+	}
+	rs[at].TsNano = minTs - 1000000000
+	rs[at].Latency = maxEnd - rs[at].TsNano + 1500000000
+}
+
 func genResultSet(r *kit.Rng, base uint64, zeroLat bool) []gen.ResultSpec {
+	rs := genResultSetRaw(r, base, zeroLat)
+	switch r.Pick(5) {
+	case 0:
+		completionOrder(rs)
+	case 1: // began first, ended last, anywhere but in front
+		if len(rs) > 1 {
+			plantSlowEarly(rs, 1+r.Pick(len(rs)-1))
+		}
+	case 2:
+		if len(rs) > 1 {
+			plantSlowEarly(rs, r.Pick(len(rs)))
+			completionOrder(rs)
+		}
+	}
+	return rs
+}
+
+func genResultSetRaw(r *kit.Rng, base uint64, zeroLat bool) []gen.ResultSpec {
 	var n int
 	switch r.Pick(5) {
 	case 0:
@@ -1079,7 +1128,7 @@ func genResultSet(r *kit.Rng, base uint64, zeroLat bool) []gen.ResultSpec {
 
 func runC13(c *run.Ctx, s *kit.Summary) {
 	r := kit.NewRng(c.Seed)
-	s.Rule = "library: 0…7 scripted decoders of 0…20 items (records, failing calls), and 1…6 real gob/CSV/JSON decoders (DecoderFor or specific) over streams of 0…15 records; command: result sets of 1…60 records split into 1…6 non-empty files (contiguous cuts, one-record files plus one big file, arbitrary order-preserving assignment) × encoding assignments (all 3^k for small k, a sample otherwise) through the in-process report (json with/without buckets, json with intermediate reports every 1µs, text compared field-wise with the unsplit text report, hist by type and by -buckets flag, hdrplot) and encode (to gob/csv/json) commands, every command guarded against never returning; every run: rotations passing 2^8 and 2^16 attempts with 3/5/6/7 decoders, multi-file sets with a ≥ 64 KiB record and with a record of exactly 4096·k+1 / 65537 encoded bytes in a non-first position; non-trivial = distinct case with ≥ 2 inputs"
+	s.Rule = "library: 0…7 scripted decoders of 0…20 items (records, failing calls), and 1…6 real gob/CSV/JSON decoders (DecoderFor or specific) over streams of 0…15 records; command: result sets of 1…60 records (arrival orders: generated, completion order with non-monotone timestamps, the record that began first ending last and heading the 2nd/3rd file, fully shuffled files) split into 1…6 non-empty files (contiguous cuts, one-record files plus one big file, arbitrary order-preserving assignment) × encoding assignments (all 3^k for small k, a sample otherwise) through the in-process report (json with/without buckets, json with intermediate reports every 1µs, text compared field-wise with the unsplit text report, hist by type and by -buckets flag, hdrplot) and encode (to gob/csv/json) commands, every command guarded against never returning; every run: rotations passing 2^8 and 2^16 attempts with 3/5/6/7 decoders, multi-file sets with a ≥ 64 KiB record and with a record of exactly 4096·k+1 / 65537 encoded bytes in a non-first position; non-trivial = distinct case with ≥ 2 inputs"
 	if c.Replay != "" {
 		replay(c, s)
 		return
@@ -1176,6 +1225,49 @@ func runC13(c *run.Ctx, s *kit.Summary) {
 		// files: {0,2,4} and {1,3,5}: the large record is the second of the first file
 		cr.runSet(big, [][][]int{{{0, 2, 4}, {1, 3, 5}}, {{1, 3, 5}, {0, 2, 4}}}, func(k int) [][]string { return allAssignments(k) }, true)
 		s.Count("cli:set_with_large_record")
+	}
+	// dedicated sets, every run: records in completion order; the record that began first ends last and sits
+	// at the head of the 2nd / 3rd file (it arrives as a new Earliest after other records and also holds End)
+	for k := 0; k < 3; k++ {
+		set := make([]gen.ResultSpec, 7+r.Pick(6))
+		for i := range set {
+			set[i] = gen.InterResult(r, base+uint64(i), -1)
+			set[i].TsNano = 1700000000000000000 + r.Range(0, 10000000000)
+			set[i].Latency = r.Range(1000000, 3000000000)
+		}
+		base += uint64(len(set)) + 7
+		plantSlowEarly(set, r.Pick(len(set)))
+		completionOrder(set)
+		m := len(set) - 1 // began first, ended last
+		var a, b, c3 []int
+		for i := 0; i < m; i++ {
+			switch i % 3 {
+			case 0:
+				a = append(a, i)
+			case 1:
+				b = append(b, i)
+			default:
+				c3 = append(c3, i)
+			}
+		}
+		second := [][]int{append(append([]int{}, a...), c3...), append([]int{m}, b...)}
+		third := [][]int{a, b, append([]int{m}, c3...)}
+		shuffled := [][]int{r.Perm(len(set))[:len(set)/2], nil}
+		used := map[int]bool{}
+		for _, i := range shuffled[0] {
+			used[i] = true
+		}
+		for _, i := range r.Perm(len(set)) {
+			if !used[i] {
+				shuffled[1] = append(shuffled[1], i)
+			}
+		}
+		cr.runSet(set, [][][]int{second, third, shuffled}, func(k int) [][]string {
+			all := allAssignments(k)
+			r.Shuffle(len(all), func(x, y int) { all[x], all[y] = all[y], all[x] })
+			return all[:min(len(all), 5)]
+		}, true)
+		s.Count("cli:set_in_completion_order_slow_early_record")
 	}
 	// dedicated sets, every run: a record in a non-first position whose own encoded length (JSON line, CSV
 	// record, gob message) is exactly 4096·k+1 resp. 65536+1 bytes including its terminator — the edge at
